@@ -106,9 +106,14 @@ variable {F : Type} [Add F] [Sub F] [Mul F] [Div F] [LT F] [DecidableLT F] [Roun
 def mkGrid (g0 delta : F) (dec fd : Nat) : PGrid F := ⟨aroundDec dec g0, aroundDec dec delta, dec, fd⟩
 
 /-- `ParameterGrid.__init__` with its argument checks: `none` = `ValueError` for more than
-`maxDec` decimals (the literal 16 of the source) or a negative number of decimals. -/
+`maxDec` decimals (the literal 16 of the source), a negative number of decimals, or a spacing that
+rounds to zero. -/
 def mkGridChecked (g0 delta : F) (dec : Int) (fd maxDec : Nat) : Option (PGrid F) :=
-  if dec < 0 ∨ (maxDec : Int) < dec then none else some (mkGrid g0 delta dec.toNat fd)
+  if dec < 0 ∨ (maxDec : Int) < dec then none
+  else
+    let G := mkGrid g0 delta dec.toNat fd
+    -- a spacing that is zero (or nan) after rounding to `dec` decimals is refused
+    if G.delta < ofI 0 ∨ ofI 0 < G.delta then some G else none
 
 /-- `_calc_floatD_and_intD`: `floatD = around((value - lb)/delta, 9)` (`fd = 9`) -/
 def floatD (G : PGrid F) (v : F) : F := aroundDec G.fd ((v - G.lb) / G.delta)
